@@ -89,8 +89,20 @@ def pair(draw):
     return {"s1": s1, "s2": s2, "how": how, "inplace": inplace}
 
 
+@st.composite
+def concurrent(draw):
+    """Several untouched files observed at the same time from several threads (as the lanes of a build do): every
+    observation must equal the one taken serially beforehand."""
+    n = draw(st.integers(2, 4))
+    files = [{"n": draw(st.sampled_from([0, 1, 4096, 16384, 16385, 70000, 300000, 1000000])), "fill": draw(st.integers(0, 255))}
+             for _ in range(n)]
+    return {"kind": "concurrent", "files": files, "fs": draw(st.sampled_from(["checksum", "checksum", "local", "agnostic"])),
+            "repeat": draw(st.integers(1, 4))}
+
+
 def strategy(tier):
-    return pair()
+    # (repeating one strategy object inside one_of does not weight it: Hypothesis sees two branches)
+    return st.integers(0, 24).flatmap(lambda n: concurrent() if n == 17 else pair())
 
 
 def data_of(c):
@@ -189,7 +201,43 @@ def observe(base):
     return out
 
 
+def run_concurrent(case, ctx):
+    base = ctx.fresh("c13p")
+    os.makedirs(base)
+    try:
+        paths = []
+        for i, f in enumerate(case["files"]):
+            p = os.path.join(base, "f%d" % i)
+            with open(p, "wb") as fh:
+                # distinct content per file and per 16 KiB chunk, so that a chunk digested from another
+                # thread's read changes the checksum
+                blk = bytes([(f["fill"] + i) & 0xff])
+                data = bytearray(blk * f["n"])
+                for off in range(0, f["n"], 16384):
+                    data[off] = (off // 16384 + i * 7) & 0xff
+                fh.write(data)
+            paths.append(p)
+        serial = [val.ask("finfo %s 0 %s" % (case["fs"], val.hx(p.encode()))).split(" ")[0] for p in paths]
+        got = val.ask("pfinfo %s %d %s" % (case["fs"], case["repeat"], " ".join(val.hx(p.encode()) for p in paths))).split(" ")
+        k = case["repeat"]
+        for i, p in enumerate(paths):
+            for j in range(k):
+                if got[i * k + j] != serial[i]:
+                    return Outcome("%s mode: file %d (%d bytes) was not touched, but observation %d taken while %d other "
+                                   "threads were observing other files differs from the serial one: %s vs %s" % (
+                                       case["fs"], i, case["files"][i]["n"], j, len(paths) - 1, got[i * k + j], serial[i]),
+                                   classes=["concurrent"])
+        big = sum(1 for f in case["files"] if f["n"] > 16384) >= 2
+        return Outcome(None, nontrivial=big and case["fs"] == "checksum", classes=["concurrent"])
+    except val.Died as e:
+        return Outcome(e.msg)
+    finally:
+        shutil.rmtree(base, ignore_errors=True)
+
+
 def run_case(case, ctx, verbose=False):
+    if case.get("kind") == "concurrent":
+        return run_concurrent(case, ctx)
     base = ctx.fresh("c13")
     os.makedirs(base)
     try:
